@@ -484,9 +484,25 @@ def iter_func_args(
     # accepted by that callable in the "args_name" tuple.
     args_index_kind_first = 0
 
+    # True only if omitting the first parameter accepted by that callable
+    # (i.e., if that callable is a C-based bound method descriptor implicitly
+    # passing the "self" or "cls" parameter to the method it encapsulates) and
+    # that parameter has yet to be omitted. This parameter is the first
+    # mandatory positional-only parameter if that method accepts positional-only
+    # parameters (e.g., "def muh_method(self, muh_arg, /)") *OR* the first
+    # mandatory flexible parameter otherwise.
+    is_omit_arg_first = (
+        is_omit_boundmethod_arg_first and is_func_boundmethod(func))
+
     # If that callable accepts at least one mandatory positional-only
     # parameter...
     if args_len_posonly_mandatory:
+        # If omitting the first parameter, this parameter is the first mandatory
+        # positional-only parameter. Skip this parameter.
+        if is_omit_arg_first:
+            args_index_kind_first += 1
+            is_omit_arg_first = False
+
         # For each mandatory positional-only parameter accepted by that
         # callable, yield a tuple describing this parameter.
         for arg_name in args_name[
@@ -537,9 +553,9 @@ def iter_func_args(
             # callable if that callable is a C-based bound method descriptor
             # encapsulating either an instance method bound to an instance of a
             # class or a class method bound to a class *AND*...
-            is_omit_boundmethod_arg_first and
-            # That callable is such a C-based bound method descriptor...
-            is_func_boundmethod(func)
+            is_omit_arg_first
+            # That callable is such a C-based bound method descriptor whose
+            # first parameter has yet to be omitted...
         ):
             # print(f'Ignoring bound method {repr(func)} first argument...')
             # Increment the 0-based index of the first mandatory flexible
